@@ -17,7 +17,7 @@ Filters == { <<>>, <<"V">>, <<"A">>, <<"V", "A">> }
 Pats1Quick    == { Pat(c, q, 404, <<>>) : c \in 2..7, q \in 0..3 } \cup { Pat(c, 1, 404, <<"A">>) : c \in {3, 7} }
 Pats2Quick    == { Pat(3, 0, 503, <<>>), Pat(5, 1, 503, <<"V">>), Pat(7, 0, 503, <<"V", "A">>) }
 Pats1Thorough == { Pat(c, q, 404, f) : c \in 2..7, q \in 0..3, f \in { <<>>, <<"A">>, <<"V", "A">> } }
-Pats2Thorough == { Pat(c, q, 503, f) : c \in {2, 3, 5, 7}, q \in {0, 1}, f \in { <<>>, <<"V">> } }
+Pats2Thorough == { Pat(c, 0, 503, <<"V">>) : c \in {2, 3, 5, 7} } \cup { Pat(c, 1, 503, <<>>) : c \in {2, 3, 5, 7} }
 Iv(s, d) == [s |-> s, d |-> d]
 \* all traffic patterns over {u,d,s,h} up to length 3 with durations in {1,2,10}
 Itvls == { Iv(s, d) : s \in TrafficStates, d \in {1, 2, 10} }
